@@ -359,6 +359,33 @@ def classify_explain(msg):
     if 'silently' in msg or 'no ' in msg: return 'rejection_without_signal'
     return 'other'
 
+def _wrap_worker(sig):
+    from pyvc import wrapcheck
+    return wrapcheck.wrapper_obligations(sig, True)
+
+def wrapper_agrees(rep):
+    """the wrapper as an entry point: for signatures mixing annotated, unannotated and variadic parameters (captured wrapper text, arbitrary
+    args / kwargs) a parameter violation is raised exactly about a value Python binds to the parameter carrying the hint and that the hint's
+    own check rejects (the verdict is_bearable gives for that value), and the original is called only after every passed annotated value was
+    accepted by that same check: the verdict of the decorator for `param: H` is the verdict for (value bound to param, H), never for a value
+    bound to another parameter."""
+    from props import gensweep
+    with mp.get_context('fork').Pool(min(10, int(os.environ.get('VERIF_PROCS', '16')))) as pool:
+        recs = pool.map(_wrap_worker, gensweep.C01_SIGS)
+    n = 0
+    for rec in recs:
+        tag = f'C03.wrap[{rec.get("src", str(rec["sig"])).splitlines()[0][4:-1] if rec.get("src") else rec["sig"]}]'
+        if rec['error']: rep.error(f'{tag}: {rec["error"]}'); continue
+        for o in rec['obligations']:
+            if not o['name'].startswith(('post.a.', 'post.b.', 'post.return_violation', 'post.return_checked')): continue
+            n += 1; rp = o.get('replay'); script = None
+            if rp and rp.get('reproduced'):
+                script = (f'from pyvc import wrapcheck\nok, d = wrapcheck.replay_c04({rec["sig"]!r}, True, "BeartypeConf()", {rp.get("args")!r}, {rp.get("kwargs")!r})\n'
+                          'print("REPRODUCED" if ok else "not reproduced", d)\nsys.exit(1 if ok else 0)\n')
+            rep.add(f'{tag}.{o["name"]}', o['status'], time=o.get('time'), backend=o.get('backend'), where=o.get('where'), replay=rp, solver_output=o.get('solver_output'), replay_script=script, bounded=True)
+    if not n: rep.error('C03 wrapper_agrees: no obligation')
+    rep.functions.append('wrapper text generated for 10 signatures with annotated variadics next to unannotated parameters (mode G; shared with C01 / C04): the parameter check is about the value bound to that parameter')
+
 def main(tier, seed):
     rep = report.Report('C03', tier, seed, 'proof', f'./check C03 --tier {tier}')
     from pyvc import shapes
@@ -388,6 +415,8 @@ def main(tier, seed):
     except Exception: rep.error('C03 agree: ' + traceback.format_exc()[-2000:])
     try: typehint_entrypoints(rep)
     except Exception: rep.error('C03 typehint_entrypoints: ' + traceback.format_exc()[-1500:])
+    try: wrapper_agrees(rep)
+    except Exception: rep.error('C03 wrapper_agrees: ' + traceback.format_exc()[-1500:])
     try: explain(rep, tier, seed)
     except Exception: rep.error('C03 explain: ' + traceback.format_exc()[-2000:])
     extra_functions = []
